@@ -3,7 +3,8 @@ from pathlib import Path
 
 import histgen
 from vlib import Check
-from checks.exporter_common import run_histories, rng_for, exporter_models, generated_histories
+from checks.exporter_common import (run_histories, rng_for, exporter_models, generated_histories, exporter_x_models,
+                                    generated_x_histories)
 
 
 def rotation_heavy(rng, n, comps):
@@ -32,22 +33,66 @@ def rotation_heavy(rng, n, comps):
     return hs
 
 
+def alignment_family(rng, tier):
+    """Short histories whose LAST stored member before a rotation has every head width (1, 2, 3, 5, 9 bytes) and string
+    lengths around 8, behind 0..3 small records that shift the fill level: on the scaled encoder buffer the closing
+    break, the file header and the array starts then meet every fill level, including 'exactly full'."""
+    last = [("client_hoplimit", [23, 24, 255]), ("client_port", [23, 255, 256, 65535]), ("transaction_id", [256, 65535]),
+            ("query_size", [255, 65535, 65536, (1 << 32) - 1, 1 << 32, (1 << 64) - 1]),
+            ("response_size", [24, 256, 65536, 1 << 32]), ("round_trip_time", [0, 23, 24, 65536, 1 << 32, -1, -25, -(1 << 32) - 1]),
+            ("response_delay", [255, -256, 1 << 40]), ("asn", [6, 7, 8, 9, 10, 11, 12, 23, 24]), ("country_code", [1, 2, 7, 8, 9])]
+    pads = [[], [{"client_hoplimit": histgen.nat(1)}], [{"client_port": histgen.nat(300)}],
+            [{"client_hoplimit": histgen.nat(200)}, {"transaction_id": histgen.nat(7)}],
+            [{"query_size": histgen.nat(70000)}], [{"client_port": histgen.nat(5)}, {"client_hoplimit": histgen.nat(30)},
+                                                    {"response_size": histgen.nat(1)}]]
+    hs = []
+    for f, vals in last:
+        for v in vals:
+            for pi, pad in enumerate(pads):
+                if tier == "quick" and (len(hs) + pi) % 2:
+                    continue
+                if f in ("asn", "country_code"):
+                    rec = {f: [97 + (i % 26) for i in range(v)]}
+                elif f in ("round_trip_time", "response_delay"):
+                    rec = {f: histgen.snum(v)}
+                else:
+                    rec = {f: histgen.nat(v)}
+                pools = histgen.Pools(rng)
+                bp = histgen.gen_bp(rng, pools, tps=1000000, maxitems=10000, hints=(histgen.ALL_QRH, histgen.ALL_SIGH, 3, 3))
+                ops = [{"op": "qr", "r": dict(r)} for r in pad] + [{"op": "qr", "r": rec}, {"op": "rot", "export": True}]
+                ops += [{"op": "qr", "r": dict(r)} for r in pad[:1]] + [{"op": "qr", "r": rec}, {"op": "wb"}]
+                hs.append({"comp": "none", "out": ["file", "fd"][len(hs) % 2],
+                           "preamble": {"major": histgen.nat(1), "minor": [], "private": histgen.nat(1), "bps": [bp]}, "ops": ops})
+    return hs
+
+
 def run(tier):
     chk = Check("C13", tier, "model_checking")
     chk.rule = ("model: all histories <= MaxOps incl. rotate(export in {T,F}), add/set parameters; (G) complete model "
                 "histories replayed on the real exporter; (T) rotation-heavy random histories on file-name and descriptor "
-                "outputs, three compression modes; every closed output parsed by TLC; distinct = executions")
+                "outputs, three compression modes, and on the build whose encoder buffer is scaled to 12 bytes (every alignment of "
+                "break / header / carried-over block to the buffer boundary); every closed output parsed by TLC; "
+                "distinct = executions")
     chk.assumptions = ["TLC + CommunityModules", "driver logging (harness/exp_driver.cpp)", "python3 zlib/lzma",
                        "rotation argument of the same kind (name / descriptor) as the constructor's (the other case is a "
                        "silent no-op of the writer and outside the statement)"]
     exporter_models(chk, tier, selftests=("rot_drops_block", "stale_header"))
+    exporter_x_models(chk, tier)
     gen = generated_histories(chk, 3, "{1, 2}", limit=2500 if tier == "quick" else None)
     gen = [h for h in gen if any(o["op"] == "rot" for o in h["ops"])]
+    gen += generated_x_histories(chk, 4, limit=500 if tier == "quick" else 6000,
+                                 want=lambda h: any(o["op"] == "rot" for o in h["ops"]))
     m1 = run_histories(chk, gen, {"C13"}, label="c13g")
     rng = rng_for(chk, 13)
     n = 48 if tier == "quick" else 900
     m2 = run_histories(chk, rotation_heavy(rng, n, ["none", "none", "gz", "xz"]), {"C13"}, label="c13r", sample=False)
-    chk.distinct = m1["execs"] + m2["execs"]
+    # the same kind of histories on the build with the encoder's staging buffer scaled to 12 bytes: every alignment of
+    # the closing break, the file header and the carried-over block to the buffer boundary occurs (also "exactly full")
+    n3 = 40 if tier == "quick" else 600
+    m3 = run_histories(chk, rotation_heavy(rng, n3, ["none", "none", "none", "gz"]), {"C13"}, label="c13s", sample=False,
+                       defs=("CDNS_VERIF_ENC_BUFFER=12",))
+    m4 = run_histories(chk, alignment_family(rng, tier), {"C13"}, label="c13a", sample=False, defs=("CDNS_VERIF_ENC_BUFFER=12",))
+    chk.distinct = m1["execs"] + m2["execs"] + m3["execs"] + m4["execs"]
     return chk.finish()
 
 
